@@ -346,6 +346,58 @@ where
       exact h p hp
 
 
+/-! ### schedules: the manager never merges a partial set of answers -/
+
+/-- `call` collects all answers or fails: without an error every plugin's answer is present
+    (same plugins, same order, none missing), and there is an error iff some plugin failed. -/
+theorem call_all_or_error {α} (results : List (String × Except String α)) :
+    ((call results).2 = none ↔ ∀ pr ∈ results, ∃ a, pr.2 = .ok a) ∧
+    ((call results).2 = none → (call results).1.map (·.1) = results.map (·.1) ∧
+      ∀ p a, (p, a) ∈ (call results).1 ↔ (p, Except.ok a) ∈ results) := by
+  induction results with
+  | nil => simp [call]
+  | cons pr rest ih =>
+    obtain ⟨p, r⟩ := pr
+    obtain ⟨ih1, ih2⟩ := ih
+    cases r with
+    | error e =>
+      constructor
+      · simp [call]
+      · intro h; simp [call] at h
+    | ok a =>
+      have hc2 : (call ((p, Except.ok a) :: rest)).2 = (call rest).2 := by simp [call]
+      have hc1 : (call ((p, Except.ok a) :: rest)).1 = (p, a) :: (call rest).1 := by simp [call]
+      constructor
+      · rw [hc2, ih1]; simp
+      · intro h
+        rw [hc2] at h
+        obtain ⟨i1, i2⟩ := ih2 h
+        rw [hc1]
+        refine ⟨by simp [i1], ?_⟩
+        intro p' a'
+        simp only [List.mem_cons, Prod.mk.injEq, i2 p' a', Except.ok.injEq]
+
+/-- Whatever the schedule (answer delays, the caller's context cancelled or expired between two
+    answers): `GetNodesDeployCapacity` returns an error or the merge over the answers of ALL
+    plugins — never the merge of the plugins that happened to have answered. -/
+theorem manager_call_full_or_error (results : List (String × Except String Answer)) (out : Answer × Int)
+    (h : managerDeployCapacityCall results = .ok out) :
+    (∀ pr ∈ results, ∃ a, pr.2 = .ok a) ∧
+    out = managerDeployCapacity ((call results).1.map (·.2)) ∧ (call results).1.map (·.1) = results.map (·.1) := by
+  unfold managerDeployCapacityCall at h
+  cases hc : call results with
+  | mk answers err =>
+    rw [hc] at h
+    cases err with
+    | some e => simp at h
+    | none =>
+      simp only [Except.ok.injEq] at h
+      have hnone : (call results).2 = none := by rw [hc]
+      have := call_all_or_error results
+      have h3 := (this.2 hnone).1
+      rw [hc] at h3
+      exact ⟨this.1.1 hnone, h.symm, h3⟩
+
 example : ∃ answers node c, (managerDeployCapacity answers).1.find? node = some c ∧ answers.length = 2 :=
   ⟨[[("n", { cap := 3, usage := 1, rate := 1, weight := 2 })], [("n", { cap := 2 })]], "n", _, rfl, rfl⟩
 
